@@ -489,6 +489,22 @@ def enclosing_chain(node):
     return out
 
 
+def clone(node):
+    """structural copy of an AST that follows _fields only (never the _parent back-links)"""
+    if isinstance(node, list):
+        return [clone(x) for x in node]
+    if not isinstance(node, ast.AST):
+        return node
+    new = type(node)()
+    for f in node._fields:
+        if hasattr(node, f):
+            setattr(new, f, clone(getattr(node, f)))
+    for a in ('lineno', 'col_offset', 'end_lineno', 'end_col_offset'):
+        if hasattr(node, a):
+            setattr(new, a, getattr(node, a))
+    return new
+
+
 def call_name(call):
     """dotted textual name of a call's callee ('numpy.exp', 'phi.copy', 'f')"""
     return dotted(call.func)
